@@ -1,0 +1,25 @@
+//go:build verif
+
+package sample
+
+// Export-only accessors for the verification harness (property C13). No behaviour.
+
+// VerifC13Goal returns GoalThroughputPerSec of the dynsampler behind a throughput sampler.
+func VerifC13Goal(s Sampler) (goal int, ok bool) {
+	switch x := s.(type) {
+	case *EMAThroughputSampler:
+		return x.dynsampler.GoalThroughputPerSec, true
+	case *WindowedThroughputSampler:
+		return int(x.dynsampler.GoalThroughputPerSec), true
+	case *TotalThroughputSampler:
+		return x.dynsampler.GoalThroughputPerSec, true
+	}
+	return 0, false
+}
+
+// VerifC13PeerCount returns the peer count the factory currently divides by.
+func VerifC13PeerCount(f *SamplerFactory) int {
+	f.mutex.Lock()
+	defer f.mutex.Unlock()
+	return f.peerCount
+}
